@@ -466,16 +466,24 @@ def respell(model, top_origin=False, top_ttl=None, no_directives=False, rel_orig
         lines.append(line)
 
     def write_rr(it, junk=False):
+        nonlocal applied
         p = it.get("p") or {}
         before = len(lines)
-        ot = owner_tokens(it, p)
         if junk:
-            # nothing on an ignored line may influence what follows (except the owner)
-            keep = (st.default, st.default_src, st.last)
+            # nothing on an ignored line may influence what follows (except the owner); the
+            # spellings used on it are not counted as rewrites of the model
+            keep = (st.default, st.default_src, st.last, applied)
+            applied = Counter()
+            ot = owner_tokens(it, p)
             hd = header(it, p, allow_dollar_ttl=False)
-            st.default, st.default_src, st.last = keep
-        else:
-            hd = header(it, p)
+            toks = [ot] + hd + [type_token(it, p)] + rdata_tokens(it, p)
+            lead = "\t" if p.get("sep", 0) % 2 else "    "
+            finish(_layout(toks, p, applied, lead), p)
+            st.default, st.default_src, st.last, applied = keep
+            st.last_owner = list(it["owner"])
+            return before
+        ot = owner_tokens(it, p)
+        hd = header(it, p)
         toks = [ot] + hd + [type_token(it, p)] + rdata_tokens(it, p)
         lead = "\t" if p.get("sep", 0) % 2 else "    "
         finish(_layout(toks, p, applied, lead), p)
